@@ -73,6 +73,24 @@ def run(ctx):
         traces.append(t)
         info[t["id"]] = dict(meta, src="random", advance=advance, brothers=bro, faulty=faulty)
     res.coverage["random_requests"] = n_rand
+    # headers sized at the boundaries where the encodings change form
+    n_bound = 0
+    from ..simdev import FaithfulBlockPolicy
+    targets = blockx.BOUNDARY_LENGTHS + (blockx.BOUNDARY_LENGTHS_BIG if not ctx.quick else blockx.BOUNDARY_LENGTHS_BIG[-1:])
+    for what in sorted(blockx.MEASURES):
+        for target in targets:
+            for advance in (True, False):
+                blocks = blockx.boundary_blocks(ctx.rng, what, target, advance)
+                if blocks is None:
+                    continue
+                pol = blockx.RandomBlockPolicy(random.Random(ctx.rng.random()), 1, advance) if ctx.rng.random() < 0.5 \
+                    else FaithfulBlockPolicy()
+                t, meta = bench.run(blocks, advance, pol, ctx.rng, coop=True)
+                t["id"] = len(traces) + 1
+                traces.append(t)
+                info[t["id"]] = dict(meta, src="boundary", advance=advance, what=what, target=target)
+                n_bound += 1
+    res.coverage["boundary_sized_requests"] = n_bound
     res.coverage["model_drift"] = drift
     verdicts, stats = tlc.validate("TraceBlockExchange", "Trace_BlockExchange.cfg", traces, shards=14)
     res.checker_cmds.append("tlc -workers 1 -config Trace_BlockExchange.cfg TraceBlockExchange (x%d shards)" % stats["jvms"])
